@@ -172,7 +172,9 @@ Definition expect_arg (E : env) (mros : list (list cls)) (d : sdecl) (a : arg) :
       | [] => None
       | rest => Some (sort_set (n_ifaces E) (iroot :: flat_map (content E d) rest))
       end
-  | AUnbound _ => None                      (* judged separately: [spec_unbound] *)
+  (* an unbound proxy stands for no object and provides nothing but Interface (queries are judged
+     by [spec_unbound]; in an adaptation only adapters for Interface / None can apply) *)
+  | AUnbound _ => Some [iroot]
   end.
 
 (* what the factory must receive: the instance, or the class object a class-bound proxy stands for *)
@@ -216,7 +218,6 @@ Definition spec_query (E : env) (mros : list (list cls)) (d : sdecl) (a : arg) (
 
 Definition spec_adapt (E : env) (mros : list (list cls)) (d : sdecl) (regs : list registration)
            (args : list arg) (p : iface) (n : name) (ans : list nat) : bool :=
-  if existsb is_unbound args then true else
   match all_some (map (expect_arg E mros d) args) with
   | None => true
   | Some wants =>
